@@ -104,6 +104,11 @@ instance : Monad R where
 @[simp] theorem pure_eq {α} (a : α) : (pure a : R α) = .ok a := rfl
 end R
 
+/-- Un-modelled callees: name, arguments (receiver first for methods) and the effect trace so far
+(so that successive calls can be answered differently, e.g. a request that times out twice). An
+answered call is logged in the trace like any other effect. -/
+abbrev Ext := String → List Val → List (String × List Val) → Option Val
+
 /-- The variables are a function, so that an observation `st.env "x"` after any number of
 assignments reduces by deciding string equalities and no ordering is involved. -/
 structure St where
@@ -202,7 +207,13 @@ def lenOf : Val → Option Int
   | .str s => some (Int.ofNat s.length)
   | .list xs => some (Int.ofNat xs.length)
   | .nil => some 0
+  | .struct fs => some (Int.ofNat fs.length)     -- a map
   | _ => none
+
+/-- remove every binding of key `k` (a Go map has at most one) -/
+def eraseKey (k : String) : List (String × Val) → List (String × Val)
+  | [] => []
+  | (a, v) :: rest => if a = k then eraseKey k rest else (a, v) :: eraseKey k rest
 
 def getField (f : String) : Val → R Val
   | .struct fs => match lookup f fs with
@@ -260,6 +271,19 @@ def runRange (blk : St → R (Flow × St)) (k v : Option String) : Nat → List 
     | .ok (.brk, st') => .ok (.next, st')
     | other => other
 
+/-- `for k, v := range m { body }` over a map (a record): the entries in stored order. Go leaves the
+order unspecified: a result that depends on it is valid only up to that choice. -/
+def runRangeMap (blk : St → R (Flow × St)) (k v : Option String) : List (String × Val) → St → R (Flow × St)
+  | [], st => .ok (.next, st)
+  | (key, x) :: xs, st =>
+    let st1 := match k with | some kn => st.set kn (.str key) | none => st
+    let st2 := match v with | some vn => st1.set vn x | none => st1
+    match blk st2 with
+    | .ok (.next, st') => runRangeMap blk k v xs st'
+    | .ok (.cont, st') => runRangeMap blk k v xs st'
+    | .ok (.brk, st') => .ok (.next, st')
+    | other => other
+
 /-! ### expressions -/
 
 def evalArgs (ev : Expr → St → R (Val × St)) : List Expr → St → R (List Val × St)
@@ -289,6 +313,20 @@ def builtin (f : String) (args : List Val) : Option (R Val) :=
       | some xs => some (.ok (.list (xs ++ more)))
       | none => some (.stuck "append to non-list")
     | [] => some (.stuck "append()")
+  else if f = "mapDelete" then
+    -- `delete(m, k)` (the translator turns the statement into `m = mapDelete(m, k)`); a map is a record
+    match args with
+    | [.struct fs, .str k] => some (.ok (.struct (eraseKey k fs)))
+    | [.nil, _] => some (.ok .nil)
+    | _ => some (.stuck "delete")
+  else if f = "mapLookup2" then
+    -- `v, ok := m[k]`
+    match args with
+    | [.struct fs, .str k] => match lookup k fs with
+      | some v => some (.ok (.tup [v, .bool true]))
+      | none => some (.ok (.tup [.nil, .bool false]))
+    | [.nil, _] => some (.ok (.tup [.nil, .bool false]))
+    | _ => some (.stuck "map lookup")
   else if f = "make" then
     match args with
     | [] => some (.ok (.list []))
@@ -328,7 +366,7 @@ def flowResult : Flow → Val
 
 /-- One expression, `fuel` = nesting / call depth. `callBody` runs a function body (supplied by
 `exec`, one level of fuel down). -/
-def evalE (prog : Prog) (ext : String → List Val → Option Val)
+def evalE (prog : Prog) (ext : Ext)
     (callBody : List Stmt → St → R (Flow × St)) : Nat → Expr → St → R (Val × St)
   | 0, _, _ => .stuck "fuel"
   | n + 1, e, st =>
@@ -348,6 +386,9 @@ def evalE (prog : Prog) (ext : String → List Val → Option Val)
     | .idx e i => do
       let (v, st1) ← ev e st
       let (iv, st2) ← ev i st1
+      match v, iv with
+      | .struct fs, .str k => .ok ((lookup k fs).getD .nil, st2)     -- map read: zero value when absent
+      | _, _ =>
       match asList v, iv with
       | some xs, .int k =>
         if k < 0 then .panic else match xs[k.toNat]? with
@@ -458,12 +499,12 @@ def evalE (prog : Prog) (ext : String → List Val → Option Val)
         match rv, vs with
         | .struct fs, [] => match lookup m fs with
           | some v => pure (v, st1)
-          | none => match ext m [rv] with
-            | some v => pure (v, st1)
+          | none => match ext m [rv] st1.eff with
+            | some v => pure (v, st1.log m [])
             | none => pure (.nil, st1.log m [])
         | .nil, _ => .panic
-        | _, _ => match ext m (rv :: vs) with
-          | some v => pure (v, st1)
+        | _, _ => match ext m (rv :: vs) st1.eff with
+          | some v => pure (v, st1.log m vs)
           | none => pure (.nil, st1.log m vs)
 where
   lookup' (f : String) : Prog → Option Func
@@ -483,8 +524,8 @@ where
           let (fl, st2) ← callBody fn.body { env := envOf env, eff := st1.eff }
           pure (flowResult fl, { st1 with eff := st2.eff })
         | _, _ => .stuck ("arity " ++ f)
-      | none => match ext f vs with
-        | some v => pure (v, st1)
+      | none => match ext f vs st1.eff with
+        | some v => pure (v, st1.log f vs)
         | none => pure (.nil, st1.log f vs)
 
 /-! ### statements -/
@@ -512,6 +553,23 @@ def assignTo (ev : Expr → St → R (Val × St)) : Expr → Val → St → R St
     | some (.list xs), .int k =>
       if 0 ≤ k ∧ k.toNat < xs.length then pure (st1.set x (.list (xs.set k.toNat v))) else .panic
     | _, _ => .stuck "index assignment"
+  | .idx (.sel (.var x) f) i, v, st => do
+    let (iv, st1) ← ev i st
+    match st1.env x with
+    | some r => do
+      let inner ← getField f r
+      match inner, iv with
+      | .struct fs, .str k => do
+        let r' ← setField f (.struct (update k v fs)) r
+        pure (st1.set x r')
+      | .list xs, .int k =>
+        if 0 ≤ k ∧ k.toNat < xs.length then do
+          let r' ← setField f (.list (xs.set k.toNat v)) r
+          pure (st1.set x r')
+        else .panic
+      | .nil, .str _ => .panic      -- assignment to an entry of a nil map
+      | _, _ => .stuck "index assignment"
+    | none => .stuck ("unbound " ++ x)
   | _, _, _ => .stuck "unsupported l-value"
 
 def assignAll (ev : Expr → St → R (Val × St)) : List Expr → List Val → St → R St
@@ -542,7 +600,7 @@ def runFor (evc : St → R (Bool × St)) (blk post : St → R (Flow × St)) : (i
     | .panic => .panic
     | .stuck w => .stuck w
 
-def exec (prog : Prog) (ext : String → List Val → Option Val) : Nat → Stmt → St → R (Flow × St)
+def exec (prog : Prog) (ext : Ext) : Nat → Stmt → St → R (Flow × St)
   | 0, _, _ => .stuck "fuel"
   | n + 1, s, st =>
     let ex := exec prog ext n
@@ -583,6 +641,9 @@ def exec (prog : Prog) (ext : String → List Val → Option Val) : Nat → Stmt
       | _ => .stuck "control flow in if-init"
     | .forRange k v e body => do
       let (xv, st1) ← ev e st
+      match xv with
+      | .struct fs => runRangeMap (blk body) k v fs st1
+      | _ =>
       match asList xv with
       | some xs => runRange (blk body) k v 0 xs st1
       | none => .stuck "range over non-list"
@@ -606,11 +667,12 @@ structure Out where
   eff : List (String × List Val)
   deriving Repr, Inhabited
 
-def noExt : String → List Val → Option Val := fun _ _ => none
+def noExt : Ext := fun _ _ _ => none
 
-/-- Run function `f` of `prog` on a receiver (for methods) and arguments. -/
-def run (prog : Prog) (ext : String → List Val → Option Val) (fuel : Nat) (f : String)
-    (recv : Option Val) (args : List Val) : R Out :=
+/-- Run function `f` of `prog` on a receiver (for methods) and arguments; `globals` are the package-level
+values the body reads (`nats.ErrTimeout`, …). -/
+def runG (prog : Prog) (ext : Ext) (fuel : Nat) (f : String)
+    (recv : Option Val) (args : List Val) (globals : List (String × Val)) : R Out :=
   match evalE.lookup' f prog with
   | none => .stuck ("no function " ++ f)
   | some fn =>
@@ -620,12 +682,15 @@ def run (prog : Prog) (ext : String → List Val → Option Val) (fuel : Nat) (f
       let env' := match fn.recv, recv with
         | some rn, some rv => (rn, rv) :: env
         | _, _ => env
-      match runBlock (exec prog ext fuel) fn.body { env := envOf env', eff := [] } with
+      match runBlock (exec prog ext fuel) fn.body { env := envOf (env' ++ globals), eff := [] } with
       | .ok (fl, st) =>
         .ok { rets := match fl with | .ret vs => vs | _ => [],
               recv := match fn.recv with | some rn => st.env rn | none => none,
               eff := st.eff }
       | .panic => .panic
       | .stuck w => .stuck w
+
+def run (prog : Prog) (ext : Ext) (fuel : Nat) (f : String) (recv : Option Val) (args : List Val) : R Out :=
+  runG prog ext fuel f recv args []
 
 end Liftbridge.GoMini
